@@ -128,6 +128,53 @@ def inplace_values(chk, drv, b):
                 chk.disagree("bytes-inplace", {"schema": b.schema_line(), "line": ln}, r, w)
 
 
+def mutate_value(rng, b, v):
+    """a near copy of v: one field dropped, set to its default, replaced by a fresh value, or (floats) its zero / NaN twin"""
+    ci = v[1]
+    md = b.schema[ci]
+    kw = dict(v[2])
+    if not md.fields:
+        return v
+    i = rng.randrange(len(md.fields))
+    f = md.fields[i]
+    r = rng.random()
+    if r < 0.3 and i in kw:
+        del kw[i]
+    elif r < 0.7:
+        kw[i] = bpgen.gen_field(rng, b.schema, f, 1)
+    elif i in kw and kw[i][0] in ("f32", "f64"):
+        k = kw[i][0]
+        kw[i] = (k, rng.choice([0, 0x80000000 if k == "f32" else 1 << 63, 0x7fc00000 if k == "f32" else 0x7ff8000000000000, kw[i][1]]))
+    return ("c", ci, kw)
+
+
+def equality_stage(chk, drv, b):
+    """the model of Message.__eq__ (msgEq, BpModel/Eq.lean — what theorem roundtrip_equal speaks about) against the real `==`:
+    on value pairs that differ in one field (about half of them still equal) and on (m, parse(bytes(m))) in both orders"""
+    if not drv:
+        return
+    lines, wants = [], []
+    for v in b.values:
+        try:
+            m = bpgen.to_py(v, b.classes)
+            m2 = b.classes[v[1]]().parse(bytes(bpgen.to_py(v, b.classes)))
+            lines.append("EQRT %s %s" % (b.sid, bpgen.term(v)))
+            wants.append("%d %d" % (int(m == m2), int(m2 == m)))
+        except Exception:
+            pass
+        w = mutate_value(chk.rng, b, v)
+        try:
+            a, c = bpgen.to_py(v, b.classes), bpgen.to_py(w, b.classes)
+            lines.append("EQ %s %s ;; %s" % (b.sid, bpgen.term(v), bpgen.term(w)))
+            wants.append(str(int(a == c)))
+        except Exception:
+            pass
+    for ln, r, w in zip(lines, drv.ask(lines), wants):
+        chk.count("eq_model_" + ("equal" if w in ("1", "1 1") else "unequal"))
+        if r != w:
+            chk.disagree("__eq__", {"schema": b.schema_line(), "line": ln}, r, w)
+
+
 def one_batch(chk, drv, b):
     if drv:
         assert drv.ask1(b.schema_line()) == "ok"
@@ -143,6 +190,7 @@ def one_batch(chk, drv, b):
             staged.append((v, ci, enc, m2))
     copied_values(chk, b)
     inplace_values(chk, drv, b)
+    equality_stage(chk, drv, b)
     if drv and staged:
         lines = []
         for v, ci, enc, m2 in staged:
